@@ -1189,9 +1189,22 @@ def run_bulk_correspondence(ctx, n):
     finally:
         cip.FlowParser = orig
     if hidden:
-        ctx.disagree("FlowParser is constructed with arguments the model's compiler does not have (a channel between instances other "
-                     "than the container state)", sorted(hidden), "container, name, table, context, content_index_parser",
-                     {k: [type(x).__name__ for x in v[:3]] for k, v in hidden.items()})
+        # an argument beyond (container, name, table, context, the parser) is a channel between instances only when the SAME
+        # mutable object reaches two constructions; fresh or immutable extras are recorded, not judged
+        immut = (str, int, float, bool, type(None), tuple, frozenset, bytes)
+        shared = {}
+        for k, vals in hidden.items():
+            seen = {}
+            for x in vals:
+                if not isinstance(x, immut):
+                    seen[id(x)] = seen.get(id(x), 0) + 1
+            if any(n_ >= 2 for n_ in seen.values()):
+                shared[k] = type(vals[0]).__name__
+        ctx.stats["flowparser_extra_arguments"] = {k: len(v) for k, v in hidden.items()}
+        if shared:
+            ctx.disagree("FlowParser instances are constructed with a shared mutable object the model's compiler does not have (a channel "
+                         "between instances other than the container state)", sorted(shared), "container, name, table, context, content_index_parser",
+                         shared)
     if shared_ctx:
         ctx.disagree("two FlowParsers of one call are handed the SAME context object", shared_ctx, "a fresh dict per instance", "shared")
     ctx.stats["bulk_model_cases"] = dist
@@ -1349,7 +1362,7 @@ def run_history(case, insts, names, alone, whole, seed, record=None):
     if record is not None:
         record["history_ops"] = [o[0] for o in ops]
         record["history_repeats"] = len(ops) - len(set(ops))
-    snap = {n: (len(ts.table), sorted(vars(ts))) for n, ts in parser.template_sheets.items()}
+    snap = registry_snapshot(parser)
     for j, op in enumerate(ops):
         if op[0] == "flow":
             k = op[1]
@@ -1378,9 +1391,15 @@ def run_history(case, insts, names, alone, whole, seed, record=None):
             if d:
                 return ("history-instance", f"call {j} of {ops} on one ContentIndexParser: parse_all_flows differs from index B compiled afresh: {d}")
     if record is not None:
-        snap2 = {n: (len(ts.table), sorted(vars(ts))) for n, ts in parser.template_sheets.items()}
-        record["registry_changed"] = snap2 != snap
+        record["registry_changed"] = registry_snapshot(parser) != snap
     return None
+
+
+def registry_snapshot(parser):
+    """what survives on the parser object from one call to the next: template sheets (rows + every other attribute) and data sheets"""
+    t = {n: ([tuple(r) for r in ts.table], {k: repr(x) for k, x in vars(ts).items() if k != "table"}) for n, ts in parser.template_sheets.items()}
+    d = {n: repr(ds.rows) for n, ds in parser.data_sheets.items()}
+    return t, d
 
 
 def _build_from_sheets(sheets):
